@@ -243,10 +243,24 @@ class C02(Check):
         E.install_standard(ctx)
         pyd.install(ctx)
         ctx.extern_handlers["os.environ.get"] = lambda I, a, k, n: (a[1] if len(a) > 1 else V.NONE)
+        from checks import C06
+        C06.CHECK.install(ctx)
+
+    def modular(self):
+        from checks import C06
+        return C06.CHECK.modular()
+
+    def loop_invariants(self):
+        from checks import C06
+        return C06.CHECK.loop_invariants()
 
     def contracts(self):
+        from checks import C06
+        # the stdio serialiser is one of the emitters the statement names: its per-write obligations (one line of the
+        # message's JSON text, typed messages dumped with exclude_none=True only) are re-verified here
         return [CreateRequest("given"), CreateRequest("generated"), CreateNotification(), CreateResponse(),
-                CreateErrorResponse()] + [ParseEmitted(k) for k in ("request", "notification", "response", "error")]
+                CreateErrorResponse()] + [ParseEmitted(k) for k in ("request", "notification", "response", "error")] + \
+            [C06.StdinWriter()]
 
     def static_checks(self, repo):
         path = os.path.join(os.path.dirname(__file__), "c02_emitters.txt")
